@@ -10,7 +10,7 @@ use crate::ctx::{fbits, Ctx};
 use crate::jsonproto;
 use crate::rng::Rng;
 use crate::search::*;
-use crate::searchprops::{admissible_setting, bellman_ford, close, oracle_c03_inner};
+use crate::searchprops::{admissible_setting, bellman_ford, close, oracle_c03_inner, stale_link_witness};
 use routee_compass_core::algorithm::search::a_star::a_star_algorithm::verif_hook;
 use routee_compass_core::algorithm::search::direction::Direction;
 use routee_compass_core::algorithm::search::ksp::ksp_termination_criteria::KspTerminationCriteria;
@@ -401,15 +401,17 @@ fn oracle_ok(ctx: &mut Ctx, idx: usize, kc: &KCase, b: &Built, r: &SearchAlgorit
                 ctx.fail(idx, &key("route-not-contiguous"), format!("route {} = {:?}: edge {} then {}", i, ids, w[0], w[1]));
             }
         }
-        let mut seen = HashSet::new();
-        if ids.iter().any(|e| !seen.insert(*e)) {
-            ctx.fail(idx, &key("edge-twice"), format!("route {} = {:?}", i, ids));
-        }
         let mut vs: Vec<usize> = ids.iter().map(|e| c.edges[*e].0).collect();
         vs.push(c.edges[*ids.last().unwrap()].1);
         let mut seen = HashSet::new();
         if vs.iter().any(|v| !seen.insert(*v)) {
             ctx.fail(idx, &key("loop-in-route"), format!("route {} = {:?} visits vertices {:?}", i, ids, vs));
+        } else {
+            // (a repeated edge repeats its source vertex, so this is only reachable on a loop-free vertex sequence)
+            let mut seen = HashSet::new();
+            if ids.iter().any(|e| !seen.insert(*e)) {
+                ctx.fail(idx, &key("edge-twice"), format!("route {} = {:?}", i, ids));
+            }
         }
         if wrapped {
             let full = route_ids(&r.routes[i]);
@@ -626,6 +628,11 @@ pub fn corpus() -> Vec<KCase> {
     let mut c = kcase(b, "alternative-failed-witness");
     c.bf_ok = false;
     v.push(c);
+    // the C03 re-opening witness (A*, estimate inconsistent for the network) through single-via
+    let mut c = kcase(stale_link_witness(false), "stale-link-witness");
+    c.bf_ok = false;
+    c.style = LenStyle::Generic;
+    v.push(c);
     v.extend(yen_corpus());
     v
 }
@@ -705,6 +712,9 @@ pub fn yen_corpus() -> Vec<KCase> {
     let mut c = ycase(base_case(vec![(0, 1, 1.0), (1, 2, 1.0), (2, 3, 1.0), (1, 4, 2.0), (4, 3, 2.0)], 5, 0, 3), 2, "yen-no-dissimilar-candidate");
     c.sim = Some(Sim::EdgeId(0.1));
     v.push(c);
+    // the first alternative is dearer but has only two edges (0 -> 1 -> 3 direct): once it is the
+    // previous route the loop stops progressing, k = 3
+    v.push(ycase(base_case(vec![(0, 1, 1.0), (1, 2, 1.0), (2, 3, 1.0), (1, 3, 5.0)], 4, 0, 3), 3, "yen-later-short-route"));
     // edge-oriented, A* underlying
     let mut c = ycase(two_by_three_grid(), 2, "yen-grid-edge-oriented");
     c.base.edge_oriented = true;
